@@ -26,8 +26,8 @@ ASSUMPTIONS = [
     "IDW: only what the statement says is required - weights >= 0, rows sum to 1, support within the k nearest, weights non-increasing with distance, constants reproduced",
     "the element dimension is the last dimension",
 ]
-BOUNDS = {"quick": "5 grids (25 ordered pairs), IDW (k, power) in {(2,2), (3,1), (n,5)}; call histories of depth 2 over 36 call variants on 2 grid pairs", "thorough": "7 grids (49 pairs), IDW k in {2,3,n} x power in {1,2,5}; call histories of depth 3 over 36 call variants on 1 grid pair (46656 sequences), depth 2 on 3 more"}
-GRIDS_Q = ["mixedpatch", "cube", "tetra", "single3", "centres:pyr5"]
+BOUNDS = {"quick": "6 grids (36 ordered pairs; destinations with 1, 2, 3.. elements), IDW (k, power) in {(2,2), (3,1), (n,5)}; call histories of depth 2 over 36 call variants + the public recomputation of the source's face centres on 2 grid pairs", "thorough": "8 grids (64 pairs), IDW k in {2,3,n} x power in {1,2,5}; call histories of depth 3 over 36 call variants + the public recomputation of the source's face centres on 1 grid pair (46656 sequences), depth 2 on 3 more"}
+GRIDS_Q = ["mixedpatch", "cube", "tetra", "single3", "centres:pyr5", "isolated"]  # isolated: exactly two faces
 GRIDS_T = GRIDS_Q + ["amstrip", "polefan"]
 DEST = {"nodes": "n_node", "edge centers": "n_edge", "face centers": "n_face"}
 KIND = {"n_node": "nodes", "n_edge": "edge centers", "n_face": "face centers"}
@@ -62,10 +62,17 @@ def cases(tier):
     for a, b, d in ([("mixedpatch", "cube", 2), ("centres:pyr5", "mixedpatch", 2)] if tier == "quick" else [("mixedpatch", "cube", 3), ("centres:pyr5", "mixedpatch", 2), ("tetra", "mixedpatch", 2), ("amstrip", "polefan", 2)]):
         for first in range(len(CALLS)):
             out.append({"kind": "calls", "src": a, "dst": b, "first": first, "depth": d, "tier": tier})
+    # remap . recenter . remap: every pair of face-centred remaps around the public recomputation of the source's centres
+    rc = len(CALLS) - 1
+    facecalls = [i for i, c in enumerate(CALLS) if c[3] == "n_face"]
+    for first in facecalls:
+        out.append({"kind": "calls", "src": "centres:pyr5", "dst": "mixedpatch", "first": first, "depth": 3, "middle": rc, "alphabet": facecalls, "tier": tier})
     return out
 
 
 CALLS = [(me, co, rt, el) for me in ("nn", "idw") for co in ("spherical", "cartesian") for rt in ("nodes", "edge centers", "face centers") for el in ("n_node", "n_edge", "n_face")]
+# a public update of the SOURCE grid's face centres between two remaps (from then on face-centred data live at the new centres)
+CALLS.append(("recenter", None, None, None))
 
 
 def _run_calls(case, res):
@@ -76,8 +83,12 @@ def _run_calls(case, res):
     Dpos = {rt: _pos(gd_ref, rt) for rt in DEST}
     Spos = {el: _pos(gs_ref, KIND[el]) for el in KIND}
     dist = {(rt, el): sph.angle(Dpos[rt][:, None, :], Spos[el][None, :, :]) for rt in DEST for el in KIND}
-    for rest in itertools.product(range(len(CALLS)), repeat=case["depth"] - 1):
-        seq = (case["first"],) + rest
+    if case.get("middle") is not None:
+        rests = [(case["middle"], c) for c in case["alphabet"]]  # first . middle . c
+    else:
+        rests = itertools.product(range(len(CALLS)), repeat=case["depth"] - 1)
+    for rest in rests:
+        seq = (case["first"],) + tuple(rest)
         if "only" in case and list(seq) != case["only"]["seq"]:
             continue
         focus = dict(case, only={"seq": list(seq)})
@@ -89,9 +100,19 @@ def _run_calls(case, res):
         res["states"].append(key)
         if len(set(seq)) > 1:
             res["nontrivial"].append(key)
+        recentred = False
         for step, ci in enumerate(seq):
             me, co, rt, el = CALLS[ci]
-            dd = dist[(rt, el)]
+            if me == "recenter":
+                gs.construct_face_centers("cartesian average")
+                # from now on the reference positions of face-centred data are the centres THIS grid reports (whether the call recomputed
+                # them or kept supplied ones depends on the grid's history; that is not this property's business)
+                recentred = True
+                now = _pos(gs, "face centers")
+                dist_now = {r_: sph.angle(Dpos[r_][:, None, :], now[None, :, :]) for r_ in DEST}
+                res["transitions"] += 1
+                continue
+            dd = dist_now[rt] if (recentred and el == "n_face") else dist[(rt, el)]
             n_src = dd.shape[1]
             if me == "idw" and n_src < 2:
                 continue
